@@ -198,6 +198,11 @@ def c34(prop, tier, replay):
             for v in naming_vectors():
                 v.update({"seed": pvlib.seed(), "mutations": nmut})
                 f.write(json.dumps(v) + "\n")
+            dv, _ = p_misc.decl_vectors(prop, tier)
+            for j, v in enumerate(dv):
+                v.update({"seed": pvlib.seed() + j, "mutations": 1 if tier == "quick" else 6})
+                f.write(json.dumps(v) + "\n")
+            spaces.append({"space": "Gen_Decl.tla (directive x definition shape)", "vectors": len(dv)})
             # feature templates and EBNF grammars from the TLC generators
             for gi, g in enumerate([{"module": "Gen_Flags", "constants": {"Flags": PAR_FLAGS, "MinOn": 0, "MaxOn": 2 if tier == "quick" else 4},
                                      "invariants": ["Emit"], "no_shard_consts": True}] + ebnf_gens(tier, False)[:2]):
@@ -556,14 +561,24 @@ def strip_comments(t):
     return re.sub(r'(?<!")//[^\n"]*\n', '\n', t)
 
 
-def gap_texts(prop, tier):
+def gap_texts(prop, tier, extra_bases=()):
     """one comment (block / line) at every token boundary of a comment-free base text: `comments anywhere`"""
     base = strip_comments(COMMENTED)
-    sc = scan_texts([("base", base)], f"{prop}_{tier}_base")
+    bases = [("base", base)] + [(f"base-{tid}", t) for tid, t in extra_bases]
+    sc = scan_texts(bases, f"{prop}_{tier}_base")
     if "base" not in sc:
         raise ToolError("base text of the comment generator is not a valid grammar")
-    bb = base.encode()
     out = []
+    for bid, btext in bases[1:]:
+        if bid not in sc:
+            continue
+        b2 = btext.encode()
+        for kind, c in (("block", "/* c */ "), ("line", "// c\n")):
+            for i, g in enumerate(sc[bid]["gaps"] + [{"s": len(b2), "tok": "<eof>", "ctx": "eof"}]):
+                tid = f"gap-{bid}-{kind}-{i}"
+                GAPINFO[tid] = {"comment": kind, "before_token": g["tok"], "context": g["ctx"], "gap": i, "base": bid}
+                out.append((tid, (b2[:g["s"]] + c.encode() + b2[g["s"]:]).decode()))
+    bb = base.encode()
     gaps = sc["base"]["gaps"] + [{"s": len(bb), "tok": "<eof>", "ctx": "eof"}]
     for kind, c in (("block", "/* c */ "), ("line", "// c\n")):
         for i, g in enumerate(gaps):
@@ -600,7 +615,8 @@ def c27(prop, tier, replay):
     else:
         texts, g = ls_texts(prop, tier)
         opts = FMT_OPTS
-        texts += gap_texts(prop, tier)
+        extra_bases = [] if tier == "quick" else sorted([t for t in texts if t[0].startswith("flags-")], key=lambda t: -len(t[1]))[:3]
+        texts += gap_texts(prop, tier, extra_bases)
     scans = scan_texts(texts, f"{prop}_{tier}")
     valid = [(tid, t) for tid, t in texts if tid in scans]
     if not valid:
